@@ -7,7 +7,10 @@ R1 accessor safety in `CWLDependencyListener` (and the helper functions of strea
    a. a method called on a parse-tree context of static type T (parameter annotation, result of a generated
       accessor -- `getTypedRuleContext(s)` in the parser's class table --, loop element, `isinstance` narrowing)
       must be defined on T, on one of T's bases, or be part of antlr4's ParserRuleContext API; a method that
-      exists only on some labelled alternatives of T raises AttributeError for the other alternatives;
+      exists only on some labelled alternatives of T raises AttributeError for the other alternatives; when the
+      receiver is a parameter of a *private* helper declared with the generic `antlr4.ParserRuleContext` (a predicate
+      extracted from the handlers), the static types are those of the arguments at every resolved call site of the
+      helper (`_site_types`, through at most two helpers) and the method must be defined for each of them;
    b. the result of a helper annotated `-> ... | None` is not dereferenced (attribute / subscript) unless a
       truthiness / `is not None` test of that very value guards the dereference.
 R2 alias-handler exhaustiveness: for every grammar construct that can bind or forward a tracked name
@@ -49,6 +52,12 @@ Guards (R1a narrowing, R1b None-tests, R3b caller tests, R4 receiver / alias tes
 enclosing `if` / conditional-expression tests, preceding `and` operands and preceding guard clauses
 (`if c: return|raise|continue|break`), decomposed through and / or (De Morgan) / not / `not in`; so `if a: if b: X`,
 `if a and b: X` and `if not a: return ... X` give the same facts, while `if a or b: X` gives none about `a`.
+For the R4 receiver test the facts are expanded further (`_expand_facts`): a boolean temporary with one definition stands
+for the test it was computed from, and a call of a helper of streamflow.cwl.expression on the same listener
+(`self._is_global_member(ctx)`) stands for what its truthy / falsy result implies -- the path facts and the value of the
+`return` statements that can produce that result (the facts common to all of them), with the helper's parameter that
+receives `ctx` standing for the handler's context (inlining bound 2).  The member expression handed to `deps.add` is
+followed into such helpers in the same way (`_accessors_in`).
 
 Left out of DESIGN's R2 table: *function expression parameters*.  Without a handler a function expression
 neither pushes a scope nor shadows, so names are only ever over-approximated (a superset keeps the clause);
@@ -1030,8 +1039,22 @@ def _expand_facts(p, f, facts, ctxnames, depth: int = 2) -> list:
     """[(atom, polarity, function the atom belongs to, names denoting the handler's context there)]: `facts` of `f` with
     every atom that is a call of a module helper replaced by what the helper's result implies (_result_facts)."""
     out = []
-    for t, pol in facts:
+    todo = list(facts)
+    budget = 32
+    while todo:
+        t, pol = todo.pop(0)
         e = t.value if isinstance(t, ast.NamedExpr) else t
+        if isinstance(e, ast.Name) and budget > 0:
+            # a boolean temporary with one definition (`found = a in b; if found:` / `_ret = a in b; return _ret`) stands
+            # for the test it was computed from: decompose that test so that its polarity is read, not only its operands
+            ds = defs_of(f, e.id)
+            if len(ds) == 1 and ds[0].kind in ("assign", "walrus") and ds[0].index is None and isinstance(
+                    ds[0].value, (ast.Compare, ast.BoolOp, ast.UnaryOp, ast.Call, ast.NamedExpr)):
+                budget -= 1
+                sub2: list = []
+                _split_fact(ds[0].value, pol, sub2)
+                todo[0:0] = sub2
+                continue
         sub = _result_facts(p, f, e, pol, ctxnames, depth) if depth > 0 and isinstance(e, ast.Call) else None
         if sub:
             out.extend(sub)
@@ -1303,6 +1326,10 @@ VARIANTS = [
       _extracted("return bool(self._get_name(ctx.singleExpression()))"), "R4"),
     V("extracted predicate is also true on an untested path", FILE, LISTENER, _MEMBERS_OLD,
       _extracted("if ctx.getChildCount() > 3:\n    return True\nreturn self._get_name(ctx.singleExpression()) in self.names.global_names()"), "R4"),
+    V("extracted predicate returns a negated temporary", FILE, LISTENER, _MEMBERS_OLD,
+      _extracted("found = self._get_name(ctx.singleExpression()) not in self.names.global_names()\nreturn found"), "R4"),
+    V("receiver test negated through a boolean temporary", FILE, f"{LISTENER}.enterMemberDotExpression", _MEMBER_TEST,
+      "tracked = self._get_name(ctx.singleExpression()) not in self.names.global_names()\n    if tracked:", "R4"),
     V("extracted predicate negated at the call sites", FILE, LISTENER, _MEMBERS_OLD,
       _extracted("return self._get_name(ctx.singleExpression()) in self.names.global_names()", test="if not self._is_global_member(ctx):"), "R4"),
     V("extracted predicate handed the member context", FILE, LISTENER, _MEMBERS_OLD,
@@ -1312,6 +1339,10 @@ VARIANTS = [
       _extracted("return self._get_name(ctx.singleExpression()) in self.names.global_names()"), None),
     V("benign: extracted predicate with a temporary and a guard clause", FILE, LISTENER, _MEMBERS_OLD,
       _extracted("receiver = self._get_name(ctx.singleExpression())\nif not receiver:\n    return False\nreturn receiver in self.names.global_names()"), None),
+    V("benign: extracted predicate returns a boolean temporary (tempret)", FILE, LISTENER, _MEMBERS_OLD,
+      _extracted("_sf_ret = self._get_name(ctx.singleExpression()) in self.names.global_names()\nreturn _sf_ret"), None),
+    V("benign: receiver test through a boolean temporary", FILE, f"{LISTENER}.enterMemberDotExpression", _MEMBER_TEST,
+      "tracked = self._get_name(ctx.singleExpression()) in self.names.global_names()\n    if tracked:", None),
     V("benign: extracted predicate returns True / False from an if statement", FILE, LISTENER, _MEMBERS_OLD,
       _extracted("if self._get_name(ctx.singleExpression()) in self.names.global_names():\n    return True\nreturn False"), None),
     V("benign: extracted negative predicate, negated at the call sites", FILE, LISTENER, _MEMBERS_OLD,
